@@ -534,6 +534,7 @@ func c02PartialStarts(env *Env, rep *Report) (items []string) {
 		{[]int{1, 0}, []int{0, 1}}, {[]int{1, 0}, []int{0, 0, 1}}, {[]int{0, 1}, []int{0, 0, 1}}, {[]int{2, 0}, []int{0, 1}},
 		{[]int{1, 1}, []int{1, 1, 0}}, {[]int{0, 0}, []int{1, 1, 0}}, {[]int{2, 1, 0}, []int{0, 1, 2}}, {[]int{1, 2, 0}, []int{1, 0, 0, 2}},
 		{[]int{0, 0, 2}, []int{2, 2, 1, 0}}, {[]int{1, 0, 1}, []int{2, 0, 1}},
+		{[]int{0, 0, 0}, []int{0, 1, 0, 2}}, {[]int{1, 0, 0}, []int{2, 0, 2, 0, 1}}, {[]int{0, 1, 0}, []int{1, 2, 1, 2, 1, 0}},
 	}
 	for si, c := range scs {
 		if rep.Saturated() {
